@@ -1,5 +1,6 @@
 import StepModel.GenCxxMirror
 import StepModel.GenCxxFlags
+import StepModel.RegistryModel
 /-!
 # C02 — generated dictionary and classes mirror the EXPRESS schema
 
@@ -501,5 +502,150 @@ example : WF exDiamond exRank := by
     rcases hm with rfl | rfl | rfl | rfl <;> decide
 
 example : (exDiamond.entities.map (·.name)).Nodup := by decide
+
+end StepModel.GenCxx
+
+/-! ## the registry can be walked however its public API is used
+
+The dictionary a client sees through `ResetEntities/NextEntity`, `ResetTypes/NextType`, `ResetSchemas/NextSchema` does not
+depend on which read-only queries (`GetEntityCnt`, `GetFullEntCnt`, `FindEntity/FindType/FindSchema`, `ObjCreate`) or which
+walks of the *other* tables are interleaved with a walk. -/
+namespace StepModel.Registry
+
+/-- Read-only queries leave the registry (all three cursors included) exactly as it was. -/
+theorem queries_pure (st : State) (o : Op) (h : o.walkKind = none) : (step st o).1 = st := by
+  cases o <;> simp [Op.walkKind] at h <;> rfl
+
+def Agree (k : Kind) (a b : State) : Prop := a.list k = b.list k ∧ a.cur k = b.cur k
+
+theorem setCur_list (st : State) (k k' : Kind) (n : Nat) : (st.setCur k' n).list k = st.list k := by
+  cases k <;> cases k' <;> rfl
+
+theorem setCur_cur_ne (st : State) (k k' : Kind) (n : Nat) (h : k' ≠ k) : (st.setCur k' n).cur k = st.cur k := by
+  cases k <;> cases k' <;> first | rfl | exact absurd rfl h
+
+theorem setCur_cur_eq (st : State) (k : Kind) (n : Nat) : (st.setCur k n).cur k = n := by
+  cases k <;> rfl
+
+theorem step_next (st : State) (k : Kind) : step st (.next k) =
+    match (st.list k)[st.cur k]? with
+    | some n => (st.setCur k (st.cur k + 1), .name n)
+    | none => (st, .null) := rfl
+
+theorem step_nextAll (st : State) (k : Kind) : step st (.nextAll k) =
+    (st.setCur k (max (st.cur k) (st.list k).length), .names ((st.list k).drop (st.cur k))) := rfl
+
+theorem step_other (k : Kind) (st : State) (o : Op) (h : o.walkKind ≠ some k) : Agree k (step st o).1 st := by
+  cases o with
+  | reset k' =>
+    have : k' ≠ k := fun e => h (by rw [e]; rfl)
+    exact ⟨setCur_list _ _ _ _, setCur_cur_ne _ _ _ _ this⟩
+  | next k' =>
+    have : k' ≠ k := fun e => h (by rw [e]; rfl)
+    rw [step_next]
+    cases (st.list k')[st.cur k']? with
+    | some n => exact ⟨setCur_list _ _ _ _, setCur_cur_ne _ _ _ _ this⟩
+    | none => exact ⟨rfl, rfl⟩
+  | nextAll k' =>
+    have : k' ≠ k := fun e => h (by rw [e]; rfl)
+    exact ⟨setCur_list _ _ _ _, setCur_cur_ne _ _ _ _ this⟩
+  | entityCnt => exact ⟨rfl, rfl⟩
+  | fullEntCnt => exact ⟨rfl, rfl⟩
+  | find _ _ => exact ⟨rfl, rfl⟩
+  | objCreate _ => exact ⟨rfl, rfl⟩
+
+theorem step_agree (k : Kind) (a b : State) (o : Op) (h : o.walkKind = some k) (hab : Agree k a b) :
+    (step a o).2 = (step b o).2 ∧ Agree k (step a o).1 (step b o).1 := by
+  obtain ⟨hl, hc⟩ := hab
+  cases o with
+  | reset k' =>
+    have : k' = k := by simpa [Op.walkKind] using h
+    subst this
+    refine ⟨rfl, ?_⟩
+    show Agree k' (a.setCur k' 0) (b.setCur k' 0)
+    rw [Agree, setCur_list, setCur_list]; exact ⟨hl, by simp [setCur_cur_eq]⟩
+  | next k' =>
+    have : k' = k := by simpa [Op.walkKind] using h
+    subst this
+    rw [step_next, step_next, hl, hc]
+    cases (b.list k')[b.cur k']? with
+    | none => exact ⟨rfl, hl, hc⟩
+    | some n => exact ⟨rfl, by rw [Agree, setCur_list, setCur_list]; exact ⟨hl, by simp [setCur_cur_eq]⟩⟩
+  | nextAll k' =>
+    have : k' = k := by simpa [Op.walkKind] using h
+    subst this
+    rw [step_nextAll, step_nextAll, hl, hc]
+    exact ⟨rfl, by rw [Agree, setCur_list, setCur_list]; exact ⟨hl, by simp [setCur_cur_eq]⟩⟩
+  | entityCnt => simp [Op.walkKind] at h
+  | fullEntCnt => simp [Op.walkKind] at h
+  | find _ _ => simp [Op.walkKind] at h
+  | objCreate _ => simp [Op.walkKind] at h
+
+theorem runK_agree (k : Kind) (ops : List Op) (a b : State) (h : Agree k a b) : runK k ops a = runK k ops b := by
+  induction ops generalizing a b with
+  | nil => rfl
+  | cons o os ih =>
+    unfold runK
+    by_cases hk : o.walkKind = some k
+    · obtain ⟨h1, h2⟩ := step_agree k a b o hk h
+      simp only [hk, ↓reduceIte, h1, ih _ _ h2]
+    · simp only [hk, ↓reduceIte]
+      have ha := step_other k a o hk
+      have hb := step_other k b o hk
+      exact ih _ _ ⟨ha.1.trans (h.1.trans hb.1.symm), ha.2.trans (h.2.trans hb.2.symm)⟩
+
+/-- Non-interference: the answers a walk of one table gets are the same whether or not queries and walks of the other
+    tables are interleaved with it, at any point and in any number — for every operation sequence. -/
+theorem walk_noninterference (k : Kind) (ops : List Op) (st : State) :
+    runK k ops st = runK k (ops.filter (fun o => o.walkKind = some k)) st := by
+  induction ops generalizing st with
+  | nil => rfl
+  | cons o os ih =>
+    by_cases hk : o.walkKind = some k
+    · rw [List.filter_cons_of_pos (by simpa using hk)]
+      unfold runK
+      simp only [hk, ↓reduceIte, ih]
+    · rw [List.filter_cons_of_neg (by simpa using hk)]
+      have : runK k (o :: os) st = runK k os (step st o).1 := by
+        rw [runK]; simp only [hk, ↓reduceIte]
+      rw [this, runK_agree k os _ st (step_other k st o hk), ih]
+
+/-- A reset followed — after ANY operations that are not walk steps of the same table — by a walk to the end enumerates
+    exactly the table, whatever state the registry was in. -/
+theorem walk_complete (k : Kind) (mid : List Op) (st : State)
+    (hm : ∀ o ∈ mid, o.walkKind ≠ some k) :
+    runK k (Op.reset k :: mid ++ [Op.nextAll k]) st = [Res.unit, Res.names (st.list k)] := by
+  rw [walk_noninterference]
+  have hf : (Op.reset k :: mid ++ [Op.nextAll k]).filter (fun o => o.walkKind = some k) = [Op.reset k, Op.nextAll k] := by
+    rw [List.filter_append, List.filter_cons_of_pos (by simp [Op.walkKind])]
+    have : mid.filter (fun o => decide (o.walkKind = some k)) = [] := by
+      rw [List.filter_eq_nil_iff]
+      intro o ho; simpa using hm o ho
+    rw [this]
+    simp [Op.walkKind]
+  rw [hf]
+  simp [runK, Op.walkKind, step, setCur_list, setCur_cur_eq]
+
+end StepModel.Registry
+
+namespace StepModel.GenCxx
+
+/-- Read-only queries (`GetEntityCnt`, `GetFullEntCnt`, `FindEntity/FindType/FindSchema`, `ObjCreate`) leave the registry —
+    all three walk cursors included — exactly as it was. -/
+theorem C02_registry_queries_pure (st : Registry.State) (o : Registry.Op) (h : o.walkKind = none) : (Registry.step st o).1 = st :=
+  Registry.queries_pure st o h
+
+/-- Non-interference: the answers a walk of one table gets are the same whether or not queries and walks of the other
+    tables are interleaved with it, at any point and in any number — for every operation sequence and start state. -/
+theorem C02_registry_walk_noninterference (k : Registry.Kind) (ops : List Registry.Op) (st : Registry.State) :
+    Registry.runK k ops st = Registry.runK k (ops.filter (fun o => o.walkKind = some k)) st :=
+  Registry.walk_noninterference k ops st
+
+/-- A reset followed — after ANY operations that are not walk steps of the same table — by a walk to the end enumerates
+    exactly the table, whatever state the registry was in. -/
+theorem C02_registry_walk_complete (k : Registry.Kind) (mid : List Registry.Op) (st : Registry.State)
+    (hm : ∀ o ∈ mid, o.walkKind ≠ some k) :
+    Registry.runK k (Registry.Op.reset k :: mid ++ [Registry.Op.nextAll k]) st = [Registry.Res.unit, Registry.Res.names (st.list k)] :=
+  Registry.walk_complete k mid st hm
 
 end StepModel.GenCxx
